@@ -248,12 +248,23 @@ def trace_inputs(trace, prefix='in_'):
             key = lhs[len(prefix):]
         else:
             continue
-        if key in w or key.startswith('$pad'):
-            continue
+        harness_var = base.startswith(prefix)
+        if (key in w and not harness_var) or key.startswith('$pad'):
+            continue            # contract-created objects: first (nondet) value; harness inputs in_*: last value assigned by the harness
         val = _val(st.get('value', {}))
         if val is None or (isinstance(val, str) and ('NULL' in val or 'dynamic_object' in val or '!' in val)):
             continue
         w[key] = val
+    # reassemble arrays written element by element: name[3l] -> name = [...]
+    arrs = {}
+    for k in list(w):
+        m = re.fullmatch(r'(\w+)\[(\d+)l?\]', k)
+        if m:
+            arrs.setdefault(m.group(1), {})[int(m.group(2))] = w.pop(k)
+    for name, d in arrs.items():
+        cur = w.get(name) if isinstance(w.get(name), list) else []
+        n = max(max(d) + 1, len(cur))
+        w[name] = [d.get(i, cur[i] if i < len(cur) else 0) for i in range(n)]
     return w
 
 
